@@ -92,7 +92,8 @@ func (m *c04Model) afterEvent(name string, skip map[int]bool) {
 	}
 }
 
-var c04Names = []string{"EVA", "eva", "EvA", "EVB", "evb", "eVb", "EVC", "evc", "Evc", "PING", "ping", "PiNg"}
+var c04Names = []string{"EVA", "eva", "EvA", "EVB", "evb", "eVb", "EVC", "evc", "Evc", "PING", "ping", "PiNg",
+	"QUIZ", "quiz", "quiZ", "ABCDEFGHIJKLMNOPQRSTUVWXYZ", "abcdefghijklmnopqrstuvwxyz", "AbCdEfGhIjKlMnOpQrStUvWxYz"}
 
 func genC04(t *rapid.T) *c04Scenario {
 	sc := &c04Scenario{}
@@ -351,7 +352,7 @@ func runC04(sc *c04Scenario) *Violation {
 		m.hs[o.ID] = &c04H{id: o.ID, name: strings.ToLower(o.Name), bg: o.Kind == "bg", alive: true}
 	}
 	// sentinels on every name
-	for _, nm := range []string{"eva", "evb", "evc", "ping", "evother"} {
+	for _, nm := range []string{"eva", "evb", "evc", "ping", "evother", "quiz", "abcdefghijklmnopqrstuvwxyz"} {
 		r.tc.C.HandleFunc(nm, func(c *client.Conn, l *client.Line) {
 			r.mu.Lock()
 			ch := r.fgSent[r.eventNo(l)]
